@@ -22,6 +22,9 @@ SumSeq(q, p) == IF q = <<>> THEN Zero ELSE VAdd(IF Head(q).p = p THEN Head(q).am
 RECURSIVE SumUnw(_, _)
 SumUnw(S, p) == IF S = {} THEN Zero ELSE LET a == CHOOSE y \in S : TRUE IN VAdd(SumSeq(held[a], p), SumUnw(S \ {a}, p))
 LvHi(p) == VAdd(VAdd(lvl[p], SumAmt({x \in rel : x.p = p})), SumUnw(unw, p))
+\* what holders that were closed forcefully (GeneratorExit in the block) hold: helper activities give it back within
+\* the time step, so at the END of the step it is certainly back
+HlpAmt(p) == SumAmt({x \in rel : x.p = p /\ x.hlp})
 
 \* `x <rel> v` for a level vector x known to lie in lo..hi (per type), nt resource types: certainly (sure) /
 \* possibly true.  >=, >, <=, < hold iff they hold for every type, == iff every type is equal, != is its negation.
@@ -38,8 +41,8 @@ RelIv(lo, hi, op, v, sure, nt) ==
 \* independent evaluator of condition expressions over the observed atom values
 \* sure = TRUE: the condition certainly holds; sure = FALSE: it possibly holds (they differ only for resource levels
 \* while a borrow block is being entered or left)
-RECURSIVE EvM(_, _, _, _, _)
-EvM(c, fl, dn, t, sure) ==
+RECURSIVE EvM(_, _, _, _, _, _)
+EvM(c, fl, dn, t, sure, eos) ==
   \* (resource-level comparisons read the mirrored level `lvl`)
   CASE c[1] = "flag"  -> fl[c[2]]
     [] c[1] = "nflag" -> ~fl[c[2]]
@@ -50,12 +53,14 @@ EvM(c, fl, dn, t, sure) ==
     [] c[1] = "eq"    -> t = c[2]
     [] c[1] = "inst"  -> TRUE
     [] c[1] = "etern" -> FALSE
-    [] c[1] = "lvl"   -> IF c[2] \in taint THEN ~sure ELSE RelIv(LvLo(c[2]), LvHi(c[2]), c[4], c[3], sure, c[5])
-    [] c[1] = "all"   -> \A i \in 1..Len(c[2]) : EvM(c[2][i], fl, dn, t, sure)
-    [] c[1] = "any"   -> \E i \in 1..Len(c[2]) : EvM(c[2][i], fl, dn, t, sure)
+    [] c[1] = "lvl"   -> IF c[2] \in taint THEN ~sure
+                         ELSE RelIv(IF eos THEN VAdd(LvLo(c[2]), HlpAmt(c[2])) ELSE LvLo(c[2]), LvHi(c[2]), c[4], c[3], sure, c[5])
+    [] c[1] = "all"   -> \A i \in 1..Len(c[2]) : EvM(c[2][i], fl, dn, t, sure, eos)
+    [] c[1] = "any"   -> \E i \in 1..Len(c[2]) : EvM(c[2][i], fl, dn, t, sure, eos)
     [] OTHER -> FALSE
-Ev(c, fl, dn, t) == EvM(c, fl, dn, t, TRUE)
-Poss(c, fl, dn, t) == EvM(c, fl, dn, t, FALSE)
+Ev(c, fl, dn, t) == EvM(c, fl, dn, t, TRUE, FALSE)
+EvEnd(c, fl, dn, t) == EvM(c, fl, dn, t, TRUE, TRUE)       \* at the end of the time step
+Poss(c, fl, dn, t) == EvM(c, fl, dn, t, FALSE, FALSE)
 Nested(c) == c[1] \in {"all", "any"} /\ \E i \in 1..Len(c[2]) : c[2][i][1] \in {"all", "any"}
 CondOf(e) == IF e.op = "await_f" THEN (IF e.v THEN <<"flag", e.f>> ELSE <<"nflag", e.f>>)
              ELSE IF e.op = "await_lvl" THEN <<"lvl", e.p, <<e.v, F(e, "vb", 0)>>, F(e, "rel", "ge"), F(e, "nt", 1)>> ELSE e.c
@@ -100,8 +105,9 @@ Step ==
                 ELSE IF isres /\ held[a0] # <<>> /\ ((e0.e = "b" /\ o = "leave") \/ (e0.e = "u" /\ o = "body"))
                      THEN [held EXCEPT ![a0] = DropLast1(@)]
                 ELSE held
-     /\ rel' = IF e0.e = "b" /\ o = "leave" /\ isres THEN rel \cup {[n |-> l, a |-> a0, p |-> top.p, amt |-> top.amt]}
-               ELSE IF e0.e = "u" /\ o = "body" /\ isres THEN rel \cup {[n |-> l, a |-> 0, p |-> top.p, amt |-> top.amt]}
+     /\ rel' = IF e0.e = "b" /\ o = "leave" /\ isres THEN rel \cup {[n |-> l, a |-> a0, p |-> top.p, amt |-> top.amt, hlp |-> FALSE]}
+               ELSE IF e0.e = "u" /\ o = "body" /\ isres
+                    THEN rel \cup {[n |-> l, a |-> 0, p |-> top.p, amt |-> top.amt, hlp |-> F(e0, "exc", <<"none">>)[1] = "genexit"]}
                ELSE IF e0.e = "r" /\ o = "leave" /\ isres THEN rel \ ret
                ELSE IF e0.e = "u" /\ o = "leave" /\ isres THEN (rel \ ret) \cup Anon(ret)
                ELSE rel
@@ -115,7 +121,7 @@ Step ==
                  ELSE taint
   /\ LET e == Traces[tid][l] a == F(e, "a", 0) op == F(e, "op", "") t == F(e, "t", now)
          \* waiters whose condition holds at the END of the time step that is now over
-         stuck == {w \in waits : Ev(w.c, flg, done, now)} IN
+         stuck == {w \in waits : EvEnd(w.c, flg, done, now)} IN
      IF (t > now \/ (e.e = "fin" /\ e.ok)) /\ stuck # {}
      THEN (IF \E w \in stuck : Nested(w.c) THEN Fail("C08.left_waiting_nested") ELSE Fail("C08.left_waiting")) /\ now' = now
      ELSE
